@@ -18,6 +18,8 @@ from txtorcon).
   ``.attach_step(a, b)``        the ``s_sent`` step record that makes tor attach the a-th attachable
                                 waiting stream now (b picks the circuit where tor has the choice), or None
   ``.progress_step_for(m, b)``  the step record that moves stream ``m`` one stage towards SUCCEEDED, or None
+  ``.build_step_for(m)``        the step record that moves circuit ``m`` one stage towards BUILT (c_announce for a
+                                circuit created by EXTENDCIRCUIT 0, c_extend, c_built), or None
   ``.attach_log``               every ATTACHSTREAM line received: (line, stream id | None, circuit id | None, code)
   ``.setconf_log``              every SETCONF line received: (line, [(key, value|None), ...] | None)
   ``.handler(line)``            ``Session(extra_handler=...)`` callable for the two commands above
@@ -137,6 +139,23 @@ class AttachWorld(World):
         if m.phase == "sent" and m.kind == "connect":
             cand = self._stream_list(lambda x: x.phase == "sent" and x.kind == "connect" and not x.doomed)
             return ["s_succeeded", cand.index(m), 0, 0]
+        return None
+
+    def build_step_for(self, m):
+        """The step record that moves live circuit ``m`` one stage towards BUILT now (its LAUNCHED event if it
+        was created by EXTENDCIRCUIT and is not announced yet, one more hop, BUILT), or None."""
+        if m.gone is not None or self.circuits.get(m.id) is not m:
+            return None
+        if not getattr(m, "announced", True):
+            cand = [x for x in (self.circuits[k] for k in sorted(self.circuits)) if not x.announced]
+            return ["c_announce", cand.index(m), 0, 0]
+        if m.phase == "building" and len(m.path) < len(m.plan):
+            cand = self._circ_list(lambda x: x.phase == "building" and len(x.path) < len(x.plan))
+            return ["c_extend", cand.index(m), 0, 0]
+        if m.phase in ("building", "guard_wait") and m.path and len(m.path) == len(m.plan):
+            cand = self._circ_list(lambda x: x.phase in ("building", "guard_wait") and x.path and
+                                   len(x.path) == len(x.plan))
+            return ["c_built", cand.index(m), 0, 0]
         return None
 
     # ---------------------------------------------------------------- commands
